@@ -334,7 +334,10 @@ def eager_contraction_tensor(red_op, bin_op, reduced_vars, *terms):
     if not all(term.dtype == "real" for term in terms):
         raise NotImplementedError("TODO")
     backend = BACKEND_TO_EINSUM_BACKEND[get_backend()]
-    return _eager_contract_tensors(reduced_vars, terms, backend=backend)
+    result = _eager_contract_tensors(reduced_vars, terms, backend=backend)
+    # Reduced variables mentioned by no term still contribute their multiplicity.
+    unrelated_vars = reduced_vars.difference(*(term.input_vars for term in terms))
+    return result.reduce(red_op, unrelated_vars)
 
 
 @eager.register(Contraction, ops.LogaddexpOp, ops.AddOp, frozenset, Tensor, Tensor)
@@ -342,7 +345,10 @@ def eager_contraction_tensor(red_op, bin_op, reduced_vars, *terms):
     if not all(term.dtype == "real" for term in terms):
         raise NotImplementedError("TODO")
     backend = BACKEND_TO_LOGSUMEXP_BACKEND[get_backend()]
-    return _eager_contract_tensors(reduced_vars, terms, backend=backend)
+    result = _eager_contract_tensors(reduced_vars, terms, backend=backend)
+    # Reduced variables mentioned by no term still contribute their multiplicity.
+    unrelated_vars = reduced_vars.difference(*(term.input_vars for term in terms))
+    return result.reduce(red_op, unrelated_vars)
 
 
 # TODO Consider using this for more than binary contractions.
